@@ -48,6 +48,11 @@ func genC03(seed uint64, tier string) *world.Scenario {
 				// configured map: fan2go does not touch the fan before its first cycle;
 				// otherwise the PWM sweep puts it into manual mode during start-up
 				im := identityMap()
+				if kernel.NewRand(seed, "c03.cappedmap."+f.ID).Bool(0.3) {
+					// a user map that rescales / caps the fan: its top entry is not 255 (full speed is still raw 255)
+					top := kernel.Pick(r, 120, 200, 254)
+					im = map[int]int{0: 0, 64: top / 4, 128: top / 2, 192: top * 3 / 4, 255: top}
+				}
 				f.PwmMap = &im
 			} else {
 				f.Driver.Quant, f.Driver.K = "mult", kernel.Pick(r, 16, 51)
@@ -133,6 +138,9 @@ func runC03(t *testing.T, sc *world.Scenario) *check.Result {
 	defer l2Cleanup(worldDir)
 	co := runChild(&childSpec{Scenario: sc, WorldDir: worldDir, OutDir: outDir}, 120*time.Second)
 	accumulate(res, co)
+	if stuckViolation(res, "C03", co) {
+		return res
+	}
 	if co.Harness != "" {
 		res.Harness = co.Harness + "\n" + tailStr(co.Stderr, 1500)
 		return res
